@@ -89,12 +89,7 @@ func execMultiplicativeExprMod(context *exprContext, expr *grammar.Grammar) erro
 		return err
 	}
 
-	if right == 0 {
-		context.result = Number(math.NaN())
-		return nil
-	}
-
-	context.result = Number(int(left) % int(right))
+	context.result = Number(math.Mod(left, right))
 	return nil
 }
 
